@@ -402,12 +402,27 @@ def plan(tier: str) -> list[dict]:
     jobs += [{'engine': 'after_run', 'n': 25 if q else 600, 'hashseed': i} for i in range(2)]
     jobs += [{'engine': 'xproc_pickle', 'n': 8 if q else 150, 'hashseed': i} for i in range(2)]
     jobs += [{'engine': 'eq_variants', 'n': 400 if q else 15000, 'hashseed': i} for i in range(2)]
+    jobs += [{'engine': 'main-script', 'n': 3 if q else 40, 'hashseed': 2}]
     return jobs
+
+
+def check_main_script(case: dict) -> core.CaseResult:
+    """The pickled copy that reaches a spawn worker has the same cache_key as the original, also for task types defined in the __main__
+    of a user script (re-imported there as __mp_main__). Runs pbt/mainscript.py (shared with C06) as a script with the spawn backend
+    and compares the key each worker saw on its copy with the key of the caller's original."""
+    from . import c06
+    r = c06.check_main_script({**case, 'b1': 'spawn'})
+    r.findings = [core.Finding('C15:main-script:pickled-copy-in-spawn-worker-has-a-different-cache_key', f.detail) for f in r.findings
+                  if 'cache_key-in-worker-differs' in f.signature]
+    return r
 
 
 def run_job(rec: core.Recorder, job: dict, seed: int) -> None:
     e = job['engine']
-    if e == 'supported':
+    if e == 'main-script':
+        from . import c06
+        core.run_hypothesis(rec, e, c06.main_script_case(), check_main_script, max_examples=job['n'], seed=seed, shrink=False)
+    elif e == 'supported':
         core.run_hypothesis(rec, e, ptrees.task_tree(nan=True, subclasses=True, max_leaves=10), check_supported, max_examples=job['n'], seed=seed)
     elif e == 'xproc_pickle':
         strat = st.builds(lambda ts, hs: {'trees': ts, 'hashseed': hs}, st.lists(ptrees.task_tree(max_leaves=8, markers=False), min_size=10, max_size=30),
@@ -427,6 +442,8 @@ def run_job(rec: core.Recorder, job: dict, seed: int) -> None:
 
 def replay(record: dict) -> core.CaseResult:
     case = record['case']
+    if 'leaves' in case:
+        return check_main_script(case)
     if 'trees' in case:
         return check_xproc_batch(case)
     if 'picks' in case:
